@@ -217,3 +217,32 @@ def run(chk: Check, eng: Engine) -> None:
             chk.ok("R11-c", m.fq, m.line, f"{c.name}.__copy__ builds a new {c.name}")
         else:
             chk.bad("R11-c", eng.relfile(m), m.line, m.fq, f"{c.name}.__copy__ does not build a new object", "copy() on a memo hit returns the entry itself", keyparts=f"copy-identity|{c.name}")
+
+
+# ------------------------------------------------------------------ self-test variants
+from ..mutants import M  # noqa: E402
+
+_B = "src/fandango/constraints/base.py"
+_FA = "src/fandango/constraints/forall.py"
+_EX = "src/fandango/constraints/exists.py"
+_IMP = "src/fandango/constraints/implication.py"
+_EXP = "src/fandango/constraints/expression.py"
+_CON = "src/fandango/constraints/conjunction.py"
+_EV = "src/fandango/evolution/evaluation.py"
+_FT = "src/fandango/constraints/fitness.py"
+MUTANTS = [
+    M("gethash-drops-locals", _B, "                tuple((scope or {}).items()),\n                tuple((local_variables or {}).items()),\n", "                tuple((scope or {}).items()),\n", "R11-a"),
+    M("gethash-keys-only", _B, "                tuple((scope or {}).items()),", "                tuple((scope or {}).keys()),", "R11-a"),
+    M("gethash-no-root", _B, "                tree.get_root(),\n                tree,\n", "                tree,\n", "R11-a"),
+    M("expression-key-without-scope", _EXP, "        tree_hash = self.get_hash(tree, scope, local_variables)", "        tree_hash = self.get_hash(tree)", "R11-a"),
+    M("evaluator-key-without-root", _EV, "        key = hash((individual.get_root(), individual))\n        if key in self._fitness_cache:\n            return self._fitness_cache[key]\n\n        total", "        key = hash(individual)\n        if key in self._fitness_cache:\n            return self._fitness_cache[key]\n\n        total", "R11-a"),
+    M("forall-key-after-binding", _FA, "        tree_hash = self.get_hash(tree, scope, local_variables)\n        # If the fitness has already been calculated, return the cached value\n        if tree_hash in self.cache:\n            return copy(self.cache[tree_hash])\n        fitness_values = list()\n        scope = scope or dict()\n        local_variables = local_variables or dict()\n",
+      "        scope = scope or dict()\n        local_variables = local_variables or dict()\n        tree_hash = self.get_hash(tree, scope, local_variables)\n        # If the fitness has already been calculated, return the cached value\n        if tree_hash in self.cache:\n            return copy(self.cache[tree_hash])\n        fitness_values = list()\n", "R11-b"),
+    M("exists-store-recomputed-key", _EX, "        # Cache the fitness\n        self.cache[tree_hash] = fitness\n        return fitness", "        # Cache the fitness\n        self.cache[self.get_hash(tree, scope, local_variables)] = fitness\n        return fitness", "R11-b"),
+    M("conjunction-hit-no-copy", _CON, "        if tree_hash in self.cache:\n            return copy(self.cache[tree_hash])", "        if tree_hash in self.cache:\n            return self.cache[tree_hash]", "R11-c"),
+    M("implication-mutates-uncopied", _IMP, "            fitness = copy(self.consequent.fitness(tree, scope, local_variables))", "            fitness = self.consequent.fitness(tree, scope, local_variables)", "R11-c"),
+    M("copy-returns-self", _FT, "    def __copy__(self) -> Fitness:\n        return ConstraintFitness(\n            solved=self.solved,\n            total=self.total,\n            success=self.success,\n            failing_trees=self.failing_trees[:],\n            suggestion=copy.deepcopy(self.suggestion),\n        )", "    def __copy__(self) -> Fitness:\n        return self", "R11-c"),
+]
+TWINS = [
+    M("twin-key-name", _IMP, "tree_hash", "memo_key", None, count=4),
+]
